@@ -1,9 +1,9 @@
 CONSTANTS
   FieldSet = {"f"}
   DocSet = {"d1", "d2"}
-  StrTerms = {"a", "b"}
-  NumTerms <- Halves5
-  Bounds <- Bounds5
+  StrTerms = {"a"}
+  NumTerms <- Halves3
+  Bounds <- Bounds4
   MaxLen = 5
   EmitAll = TRUE
   Avoid = {}
